@@ -29,5 +29,6 @@ GROUPS = [
     _op('pattern_count', 'h_pattern', 'H_PATTERN', 1, 'quick', extra=['CMV_PAT_WHICH=1']),
     _op('pattern_cancel', 'h_pattern', 'H_PATTERN', 1, 'thorough', extra=['CMV_PAT_WHICH=2'], timeout=1200),
     _op('clear', 'h_clear', 'H_CLEAR', 1, 'quick', unwind=44),
-    _op('reset', 'h_clear', 'H_CLEAR', 1, 'thorough', extra=['CMV_RESET'], unwind=44, timeout=1200),
+    # ('reset' = terminate + initialize is not registered: its query ends with ERROR statuses after an unwinding
+    #  assertion in the re-initialisation with a symbolic initial exponent; initialize itself is C02.L3.initialize.cap2)
 ]
